@@ -41,8 +41,8 @@ class C19(Prop):
 
     def plan(self, tier):
         if tier == "quick":
-            return {"units": 4000, "budget_s": 75, "block": 50}
-        return {"units": 150000, "budget_s": 1500, "block": 100}
+            return {"units": 40000, "budget_s": 90, "block": 100}
+        return {"units": 1200000, "budget_s": 1500, "block": 200}
 
     def cluster(self, version, ids):
         return {"version": version, "nodes": [[fqdn(i), ip(i), port(i)] for i in ids]}
